@@ -7,6 +7,7 @@ import (
 	"sort"
 	"strconv"
 	"strings"
+	"unicode/utf8"
 
 	"github.com/apparentlymart/go-versions/versions"
 	"github.com/hashicorp/go-slug/sourceaddrs"
@@ -153,7 +154,20 @@ var aSubs = []string{"", "", "", "//sub", "//a/b", "//a/../b", "//.", "//a//b", 
 	"//%2e%2e/secret", "//a/%2E%2E/%2e%2e/b", "//a%2fb", "//%2e", "//m%2f%2fn"}
 var aWhole = []string{"github.com/org/repo", "github.com/org/repo/sub/dir", "github.com/org", "gitlab.com/org/repo.git", "gitlab.com/org/repo/a/b", "github.com/org/repo.git//x",
 	"hashicorp/subnets/cidr", "example.com/foo/bar/baz//sub", "./a", "../b", ".", "./.", "..", "./a/../b", "", " ./a", "github.com/", "github.com/o/r?ref=x", "gitlab.com/o/r/s/t?ref=y",
-	"hashicorp/subnets/cidr//a/b/../c", "example.com/foo/bar/baz@1.0.0//beep", "foo/bar/baz@1.2.3", "foo/bar/baz@0.0.0-a//x", "./a:b", ".\\a", "a/b", "../", "./"}
+	"hashicorp/subnets/cidr//a/b/../c", "example.com/foo/bar/baz@1.0.0//beep", "foo/bar/baz@1.2.3", "foo/bar/baz@0.0.0-a//x", "./a:b", ".\\a", "a/b", "../", "./",
+	// sub-paths with bytes that are not valid UTF-8 (a Latin-1 name, a lone 0xff, a truncated sequence, an
+	// overlong '/'): outside the model's domain (oracle only); every non-local route must refuse them (seed C11-g)
+	"hashicorp/subnets/cidr//caf\xe9", "example.com/foo/bar/baz@1.0.0//mod\xff", "foo/bar/baz@1.2.3//a/\xc3/b", "github.com/org/repo//\xc0\xaf", "gitlab.com/org/repo/caf\xe9",
+	"git::https://example.com/foo.git//caf\xe9", "https://example.com/foo.tar.gz//mod\xff/x?x=y", "git::ssh://example.com/a/b.git//a/\xc3?ref=main"}
+
+// constructor route only (MakeRemoteSource): spellings that a case-insensitive comparison by Unicode simple
+// case folding (strings.EqualFold) equates with an ASCII keyword although they are not that keyword and
+// lower-casing does not turn them into it: U+017F LATIN SMALL LETTER LONG S folds to 's', U+212A KELVIN SIGN to
+// 'k'; plus upper/lower ASCII mixes (url.Parse lower-cases a scheme, a hand-assembled URL need not be) and the
+// dotted / dotless i of the source type (seed C07-g)
+var mkFoldSchemes = []string{"\u017fsh", "s\u017fh", "\u017f\u017fh", "http\u017f", "HTTP\u017f", "\u017fSH", "S\u017fH", "SSH", "Ssh", "sSh", "HTTPS", "hTTps", "Https", "ssh", "https", "http", "HTTP", "\u212a", "ssh\u212a", "git", "GIT"}
+var mkFoldTypes = []string{"g\u0131t", "G\u0130T", "Git", "gIt", "http\u017f", "HTTPS", "HTTP\u017f", "\u212ait"}
+var mkFoldQueries = []string{"?\u017fha=x", "?REF=main", "?Ref=main", "?ref=main&REF=x", "?chec\u212asum=md5:x", "?CHECKSUM=md5:x", "?Archive=zip", "?ARCHIVE=tgz", "?\u017fshkey=k", "?depth=1&\u017fha=x"}
 
 func genAddr(r *Rng) string {
 	var s string
@@ -245,6 +259,22 @@ type addrIn struct {
 	With  string            `json:"with,omitempty"`
 	// Version: the version a registry address was combined with (Versioned)
 	Version string `json:"version,omitempty"`
+	// InputHex / WithHex: the exact bytes (hex) of Input / With when they are not valid UTF-8 (JSON would
+	// replace the offending bytes); a replay reads these first
+	InputHex string `json:"input_hex,omitempty"`
+	WithHex  string `json:"with_hex,omitempty"`
+}
+
+// mkAddrIn fills the hex fields for strings JSON cannot carry
+func mkAddrIn(how, input string, mk map[string]string, with, ver string) addrIn {
+	in := addrIn{How: how, Input: input, Make: mk, With: with, Version: ver}
+	if !utf8.ValidString(input) {
+		in.InputHex = X(input)
+	}
+	if !utf8.ValidString(with) {
+		in.WithHex = X(with)
+	}
+	return in
 }
 
 type addrFrom struct {
@@ -255,13 +285,13 @@ type addrFrom struct {
 }
 
 func (f addrFrom) in(how string) addrIn {
-	return addrIn{How: how, Input: f.s, Make: f.mk, With: f.with, Version: f.ver}
+	return mkAddrIn(how, f.s, f.mk, f.with, f.ver)
 }
 
 // addrReplay: what a replay file asks this lane to run first
 type addrReplay struct {
 	strs  []string    // address strings (through every parser route and the derived values)
-	makes [][3]string // constructor triples
+	makes [][4]string // constructor triples + the scheme set directly on the URL value ("" = as parsed)
 	valid []string    // strings of the documented-valid stream
 }
 
@@ -288,7 +318,7 @@ func (ar *addrReplay) fromHow(how string) {
 		ar.strs = append(ar.strs, uq(howParse.FindStringSubmatch(how)[1]))
 	case howMake.MatchString(how):
 		m := howMake.FindStringSubmatch(how)
-		ar.makes = append(ar.makes, [3]string{uq(m[1]), uq(m[2]), uq(m[3])})
+		ar.makes = append(ar.makes, [4]string{uq(m[1]), uq(m[2]), uq(m[3]), ""})
 	case howResolve.MatchString(how):
 		ar.strs = append(ar.strs, uq(howResolve.FindStringSubmatch(how)[1]))
 	case howFinal.MatchString(how):
@@ -314,19 +344,49 @@ func loadAddrReplay(cfg *Config, rep *Report) *addrReplay {
 		Type  *string           `json:"type"`
 		URL   *string           `json:"url"`
 		Sub   *string           `json:"sub"`
+		// Scheme: set on the parsed URL value before it goes to the constructor
+		Scheme   *string `json:"scheme"`
+		SubHex   *string `json:"sub_hex"`
+		InputHex *string `json:"input_hex"`
+		WithHex  *string `json:"with_hex"`
 	}
-	triple := func(m map[string]string) { ar.makes = append(ar.makes, [3]string{m["type"], m["url"], m["sub"]}) }
+	triple := func(m map[string]string) {
+		sub := m["sub"]
+		if b, ok := UnX(m["sub_hex"]); ok && m["sub_hex"] != "" {
+			sub = b // the exact bytes of a sub-path that is not valid UTF-8
+		}
+		ar.makes = append(ar.makes, [4]string{m["type"], m["url"], sub, m["scheme"]})
+	}
 	switch {
 	case loadReplayInput(cfg, "addr", &str):
 		ar.fromHow(str)
 	case loadReplayInput(cfg, "addr", &obj):
+		// the exact bytes of strings that are not valid UTF-8
+		if obj.InputHex != nil {
+			if b, ok := UnX(*obj.InputHex); ok {
+				obj.Input = &b
+			}
+		}
+		if obj.WithHex != nil {
+			if b, ok := UnX(*obj.WithHex); ok {
+				obj.With = &b
+			}
+		}
 		switch {
 		case obj.Type != nil && obj.URL != nil:
-			sub := ""
+			sub, scheme := "", ""
 			if obj.Sub != nil {
 				sub = *obj.Sub
 			}
-			ar.makes = append(ar.makes, [3]string{*obj.Type, *obj.URL, sub})
+			if obj.Scheme != nil {
+				scheme = *obj.Scheme
+			}
+			if obj.SubHex != nil {
+				if b, ok := UnX(*obj.SubHex); ok {
+					sub = b
+				}
+			}
+			ar.makes = append(ar.makes, [4]string{*obj.Type, *obj.URL, sub, scheme})
 		case obj.Make != nil:
 			triple(obj.Make)
 		case obj.Input != nil && obj.How != nil && *obj.How == "valid-grammar":
@@ -350,7 +410,7 @@ func loadAddrReplay(cfg *Config, rep *Report) *addrReplay {
 
 func init() {
 	lanes["addr"] = func(cfg *Config, rep *Report) {
-		rep.Rule = "address strings from a field-wise grammar (type prefix x scheme x userinfo x host x path x sub-path x query x fragment, incl. upper case, ports, escapes, non-ASCII), whole-string shapes (github/gitlab shorthand, registry, local, final registry), 12% character mutations; a separate stream of documented-valid remote addresses (must be accepted); (type, URL, sub-path) triples for MakeRemoteSource; derived values (relative resolution, FinalSourceAddr, Versioned, SourceAddr). non-trivial = accepted, or rejected after the URL was parsed; distinct by string"
+		rep.Rule = "address strings from a field-wise grammar (type prefix x scheme x userinfo x host x path x sub-path x query x fragment, incl. upper case, ports, escapes, non-ASCII), whole-string shapes (github/gitlab shorthand, registry, local, final registry), 12% character mutations; a separate stream of documented-valid remote addresses (must be accepted); (type, URL, sub-path) triples for MakeRemoteSource, 15% of them with the scheme set directly on the URL value (upper/lower ASCII mixes and spellings with U+017F / U+212A, which simple case folding maps to s / k), source types and query keys in case-folding spellings (dotless / dotted i, long s, Kelvin sign), a fixed corpus of those; strings and constructor sub-paths with bytes that are not valid UTF-8 (oracle only: outside the model; an accepted one must resolve ./child by the segment stack); derived values (relative resolution, FinalSourceAddr, Versioned, SourceAddr). non-trivial = accepted, or rejected after the URL was parsed; distinct by string"
 		r := NewRng(cfg.Seed)
 		var inputs []string
 		seen := map[string]bool{}
@@ -465,7 +525,7 @@ func init() {
 					if both {
 						rep.BeginReplay()
 					}
-					rep.AddOracle(OracleFailure{Property: "C06", Lane: "addr", What: "two unequal remote addresses print the same: " + str, Input: addrIn{How: "print-collision: " + str, Input: vals[0].from, With: pv.from}, Signature: sig})
+					rep.AddOracle(OracleFailure{Property: "C06", Lane: "addr", What: "two unequal remote addresses print the same: " + str, Input: mkAddrIn("print-collision: "+str, vals[0].from, nil, pv.from, ""), Signature: sig})
 					if both {
 						rep.EndReplay()
 					}
@@ -486,17 +546,32 @@ func init() {
 			rep.Count("valid-grammar")
 		}
 		// ---- MakeRemoteSource(type, URL, sub-path) ----
-		makeCorpus := [][3]string{{"git", "https://h/a//b.tgz", ""}, {"https", "https://h/foo.tar.gz?x=%zz", ""}, {"git", "https://user:pw@example.com/x.git", ""}, {"https", "https://example.com/x.tgz?checksum=", ""}}
+		// (type, URL, sub-path, scheme): a non-empty scheme is set directly on the url.URL value after
+		// url.Parse - only a caller that assembles the URL can hand over a scheme url.Parse would refuse
+		// or lower-case (upper case, characters that simple case folding maps to ASCII letters; seed C07-g)
+		makeCorpus := [][4]string{{"git", "https://h/a//b.tgz", "", ""}, {"https", "https://h/foo.tar.gz?x=%zz", "", ""}, {"git", "https://user:pw@example.com/x.git", "", ""}, {"https", "https://example.com/x.tgz?checksum=", "", ""}}
+		for _, sc := range mkFoldSchemes {
+			makeCorpus = append(makeCorpus, [4]string{"git", "https://example.com/org/repo.git", "", sc}, [4]string{"https", "https://example.com/org/repo.tar.gz", "", sc})
+		}
+		for _, ty := range mkFoldTypes {
+			makeCorpus = append(makeCorpus, [4]string{ty, "https://example.com/org/repo.git", "", ""}, [4]string{ty, "https://example.com/org/repo.tgz", "m", "https"})
+		}
+		for _, q := range mkFoldQueries {
+			makeCorpus = append(makeCorpus, [4]string{"git", "https://example.com/org/repo.git" + q, "", ""}, [4]string{"https", "https://example.com/org/repo.tgz" + q, "", ""})
+		}
+		// sub-paths that are not valid UTF-8 (oracle only)
+		makeCorpus = append(makeCorpus, [4]string{"git", "https://example.com/org/repo.git", "caf\xe9", ""}, [4]string{"https", "https://example.com/org/repo.tgz", "mod\xff/x", ""},
+			[4]string{"git", "ssh://example.com/org/repo.git", "a/\xc3", ""}, [4]string{"https", "https://example.com/dl?archive=tgz", "\xc0\xaf", ""})
 		nReplayMake := 0
 		if ar != nil {
 			nReplayMake = len(ar.makes)
 		}
 		for i := -nReplayMake; i < cfg.N/4+len(makeCorpus); i++ {
-			var ty, us, sub string
+			var ty, us, sub, scheme string
 			if i < 0 {
 				// replayed triples (no random draw is spent on them)
 				t := ar.makes[i+nReplayMake]
-				ty, us, sub = t[0], t[1], t[2]
+				ty, us, sub, scheme = t[0], t[1], t[2], t[3]
 				if i == -nReplayMake {
 					rep.BeginReplay()
 				}
@@ -508,25 +583,54 @@ func init() {
 				us = strings.TrimRight(r.Pick(aSchemes), "")+r.Pick(aUsers)+r.Pick(aHosts)+r.Pick(aPaths)+r.Pick(aQueries)+r.Pick(aFrags)
 				sub = strings.TrimPrefix(r.Pick(aSubs), "//")
 				if i < len(makeCorpus) {
-					ty, us, sub = makeCorpus[i][0], makeCorpus[i][1], makeCorpus[i][2]
+					ty, us, sub, scheme = makeCorpus[i][0], makeCorpus[i][1], makeCorpus[i][2], makeCorpus[i][3]
+				} else {
+					// a hand-assembled URL value: scheme spelled in a way url.Parse would not leave it, a
+					// source type / query key in a case-folding spelling
+					if r.Chance(15) {
+						scheme = r.Pick(mkFoldSchemes)
+					}
+					if r.Chance(6) {
+						ty = r.Pick(mkFoldTypes)
+					}
+					if r.Chance(6) && !strings.ContainsAny(us, "?#") {
+						us += r.Pick(mkFoldQueries)
+					}
 				}
 			}
 			u, perr := url.Parse(us)
 			if perr != nil {
 				continue
 			}
-			real, rerr := sourceaddrs.MakeRemoteSource(ty, u, sub)
-			reqs = append(reqs, "remote make "+X(ty)+" "+X(sub)+" "+encURLRec(u, nil))
-			impl = append(impl, encRemoteImpl(real, rerr))
 			in := map[string]string{"type": ty, "url": us, "sub": sub}
-			human = append(human, in)
-			rep.Case("make|"+ty+"|"+us+"|"+sub, rerr == nil, map[string]interface{}{"make": in, "accepted": rerr == nil})
+			how := fmt.Sprintf("MakeRemoteSource(%q,%q,%q)", ty, us, sub)
+			if scheme != "" {
+				u.Scheme = scheme
+				in["scheme"] = scheme
+				how = fmt.Sprintf("MakeRemoteSource(%q,%q with Scheme set to %q,%q)", ty, us, scheme, sub)
+				rep.Count("make:scheme-set-on-url-value")
+			}
+			real, rerr := sourceaddrs.MakeRemoteSource(ty, u, sub)
+			if utf8.ValidString(sub) {
+				reqs = append(reqs, "remote make "+X(ty)+" "+X(sub)+" "+encURLRec(u, nil))
+				impl = append(impl, encRemoteImpl(real, rerr))
+				human = append(human, in)
+			} else {
+				// a sub-path that is not valid UTF-8 is outside the model's domain (oracle only): the
+				// constructor must refuse it like every other non-local route (seed C11-g)
+				rep.Count("outside-model:not-utf8")
+				in["sub_hex"] = X(sub)
+				if rerr == nil {
+					checkNotUTF8Sub(rep, real, how, addrFrom{mk: in})
+				}
+			}
+			rep.Case("make|"+ty+"|"+us+"|"+sub+"|"+scheme, rerr == nil, map[string]interface{}{"make": in, "accepted": rerr == nil})
 			if rerr == nil {
 				rep.Count("make:accepted")
 				for _, v := range policyViolations(real) {
 					rep.AddOracle(OracleFailure{Property: "C07", Lane: "addr", What: "MakeRemoteSource result violates the transport policy: " + v, Input: in, ReqIdx: len(reqs)})
 				}
-				checkRoundTripRemote(rep, real, fmt.Sprintf("MakeRemoteSource(%q,%q,%q)", ty, us, sub), len(reqs), addrFrom{mk: in})
+				checkRoundTripRemote(rep, real, how, len(reqs), addrFrom{mk: in})
 			} else {
 				rep.Count("make:rejected")
 			}
@@ -550,10 +654,25 @@ func init() {
 				accepted = append(accepted, x)
 				acceptedFrom = append(acceptedFrom, s)
 				checkRoundTripSource(rep, x, fmt.Sprintf("ParseSource(%q)", s), addrFrom{s: s})
+				checkNotUTF8Sub(rep, x, fmt.Sprintf("ParseSource(%q)", s), addrFrom{s: s})
 			}
 			y, err := parseFinalSafe(rep, s)
 			if err == nil {
 				checkRoundTripFinal(rep, y, fmt.Sprintf("ParseFinalSource(%q)", s), addrFrom{s: s})
+				checkNotUTF8Sub(rep, y, fmt.Sprintf("ParseFinalSource(%q)", s), addrFrom{s: s})
+			}
+			if !utf8.ValidString(s) {
+				// outside the model's domain: judged by the oracles only (the kind-specific parsers too)
+				rep.Count("oracle-only:not-utf8-input")
+				if v, err := sourceaddrs.ParseRemoteSource(s); err == nil {
+					checkNotUTF8Sub(rep, v, fmt.Sprintf("ParseRemoteSource(%q)", s), addrFrom{s: s})
+				}
+				if v, err := sourceaddrs.ParseRegistrySource(s); err == nil {
+					checkNotUTF8Sub(rep, v, fmt.Sprintf("ParseRegistrySource(%q)", s), addrFrom{s: s})
+				}
+				if v, err := sourceaddrs.ParseFinalRegistrySource(s); err == nil {
+					checkNotUTF8Sub(rep, v, fmt.Sprintf("ParseFinalRegistrySource(%q)", s), addrFrom{s: s})
+				}
 			}
 			// local sources against the model
 			ls, lerr := sourceaddrs.ParseLocalSource(s)
@@ -643,7 +762,7 @@ func init() {
 		}
 		for i := range reqs {
 			m := model[i]
-			if strings.HasPrefix(reqs[i], "addr normsub ") && m != "err" {
+			if strings.HasPrefix(reqs[i], "addr normsub ") && m != "err" && m != "not-utf8" {
 				m = "ok"
 			}
 			if m == "not-utf8" {
@@ -725,6 +844,65 @@ func checkRoundTripRemote(rep *Report, x sourceaddrs.RemoteSource, how string, r
 	}
 	if y != sourceaddrs.Source(x) {
 		rep.AddOracle(OracleFailure{Property: "C06", Lane: "addr", What: fmt.Sprintf("%s prints as %q, which parses to a different value (printing %q)", how, s, y.String()), Input: from.in(how), Signature: sig, ReqIdx: reqIdx})
+	}
+}
+
+// checkNotUTF8Sub: x was accepted. Every route that yields a remote / registry / final registry address
+// refuses a sub-path that is not valid UTF-8 (the sub-path definition is io/fs.ValidPath); relative
+// resolution relies on that - its escape test is the same predicate, so from a base that carries such
+// bytes every resolution is reported as climbing out of the package. Where such a base is accepted the
+// segment stack applies as for any other base (C11; seed C11-g). Strings of this kind are outside the
+// model's domain (Lean strings are Unicode), so this oracle is the only judge.
+func checkNotUTF8Sub(rep *Report, x interface{}, how string, from addrFrom) {
+	var sub string
+	var asSource sourceaddrs.Source
+	var asFinal sourceaddrs.FinalSource
+	switch v := x.(type) {
+	case sourceaddrs.RemoteSource:
+		sub, asSource = v.SubPath(), v
+	case sourceaddrs.RegistrySource:
+		sub, asSource = v.SubPath(), v
+	case sourceaddrs.RegistrySourceFinal:
+		sub, asFinal = v.SubPath(), v
+	default:
+		return
+	}
+	if utf8.ValidString(sub) {
+		return
+	}
+	rep.Count("accepted:sub-path-not-utf8")
+	for _, rel := range []string{"./child", "../sibling", "./"} {
+		loc, err := sourceaddrs.ParseLocalSource(rel)
+		if err != nil {
+			continue
+		}
+		want, ok := refApply(sub, rel)
+		var gotSub string
+		var rerr error
+		if asFinal != nil {
+			var res sourceaddrs.FinalSource
+			res, rerr = sourceaddrs.ResolveRelativeFinalSource(asFinal, loc)
+			if rf, isf := res.(sourceaddrs.RegistrySourceFinal); rerr == nil && isf {
+				gotSub = rf.SubPath()
+			}
+		} else {
+			var res sourceaddrs.Source
+			res, rerr = sourceaddrs.ResolveRelativeSource(asSource, loc)
+			switch rv := res.(type) {
+			case sourceaddrs.RemoteSource:
+				gotSub = rv.SubPath()
+			case sourceaddrs.RegistrySource:
+				gotSub = rv.SubPath()
+			}
+		}
+		switch {
+		case ok && rerr != nil:
+			rep.AddOracle(OracleFailure{Property: "C11", Lane: "addr", What: fmt.Sprintf("%s is accepted with the sub-path %q, which is not valid UTF-8; resolving %s from it fails (%v) although the segment stack gives %q, inside the package", how, sub, rel, rerr, want), Input: from.in(how)})
+			return
+		case ok && gotSub != want:
+			rep.AddOracle(OracleFailure{Property: "C11", Lane: "addr", What: fmt.Sprintf("%s is accepted with the sub-path %q, which is not valid UTF-8; resolving %s from it gives sub-path %q, the segment stack says %q", how, sub, rel, gotSub, want), Input: from.in(how)})
+			return
+		}
 	}
 }
 
